@@ -844,8 +844,12 @@ func (mb *Metablock) Load(path string) error {
 			" 'signatures' parts")
 	}
 
-	// Fully unmarshal signatures part
-	if err := json.Unmarshal(*rawMb["signatures"], &mb.Signatures); err != nil {
+	// Fully unmarshal signatures part. The signatures are decoded into a new
+	// slice: decoding into the signatures that the Metablock may already hold
+	// would keep members of the old entries, e.g. a certificate, that the
+	// new entries do not have.
+	var signatures []Signature
+	if err := json.Unmarshal(*rawMb["signatures"], &signatures); err != nil {
 		return err
 	}
 
@@ -854,6 +858,7 @@ func (mb *Metablock) Load(path string) error {
 		return err
 	}
 
+	mb.Signatures = signatures
 	mb.Signed = payload
 
 	return nil
